@@ -94,7 +94,7 @@ def main(argv=None):
     cmd = args[0]
     if cmd == "selftest":
         from . import selftest
-        return selftest.run(args[1:] or PROPS, quiet=False)
+        return selftest.run(args[1:] or PROPS, quiet=False, repo=repo)
     if cmd == "replay":
         with open(args[1]) as f:
             rp = json.load(f)
